@@ -97,8 +97,22 @@ func c09a(c *Ctx, r *Report) {
 	}
 	r.Check(bad == "", clause, "R6 FIXPOINT", f.Name+"/closure-to-fixpoint", c.pos(pass.Pos()),
 		"passes repeat until no item is new; each pass expands every item currently in the set", "closure deviates from the fixpoint template: "+bad)
-	r.Check(sortIdx > passIdx && sortIdx == len(f.Decl.Body.List)-1, "C09.b", "R2 ORDER", f.Name+"/sorted-after-last-insertion", c.pos(f.Decl.Pos()),
-		"the item list is sorted after the fixpoint, as the last step: every closed set is in canonical order", "the item list is not sorted as the last step of the closure: equal item sets can differ as lists and be taken for different states")
+	// the sort is on every path to the function's exit (no early return can skip it)
+	fcg := buildCFG(info, f.Decl.Body)
+	everyPath := len(f.Decl.Body.List) > 0 && fcg.EveryPathToExitPasses(f.Decl.Body.List[0], func(n ast.Node) bool {
+		es, ok := n.(*ast.ExprStmt)
+		if !ok {
+			return false
+		}
+		call, ok := es.X.(*ast.CallExpr)
+		if !ok {
+			return false
+		}
+		fn := callee(info, call)
+		return fn != nil && (fn.FullName() == "sort.SliceStable" || fn.FullName() == "sort.Slice") && len(call.Args) > 0 && strings.HasSuffix(exprString(call.Args[0]), ".Items")
+	})
+	r.Check(sortIdx > passIdx && sortIdx == len(f.Decl.Body.List)-1 && everyPath, "C09.b", "R2 ORDER", f.Name+"/sorted-after-last-insertion", c.pos(f.Decl.Pos()),
+		"the item list is sorted after the fixpoint, as the last step: every closed set is in canonical order", "the item list is not sorted as the last step of the closure on every path (an early return or a condition can skip the sort): equal item sets can then differ as lists and be taken for different states")
 	// comparator decision table
 	ast.Inspect(f.Decl.Body, func(n ast.Node) bool {
 		fl, ok := n.(*ast.FuncLit)
